@@ -144,9 +144,13 @@ func footprint(t *Term) (loads []string, params []string) {
 // bstr head normaliser).
 func (P *Prog) headNormalizer() *ssa.Function {
 	for _, fn := range P.Funcs {
+		// bytes -> (bytes, error), checking its own argument
+		if fn.Signature.Recv() != nil || len(fn.Params) != 1 || !isByteSlice(fn.Params[0].Type()) || fn.Signature.Results().Len() != 2 || !isByteSlice(fn.Signature.Results().At(0).Type()) {
+			continue
+		}
 		for _, ci := range callsIn(fn, nil) {
 			c := ci.Common()
-			if c.IsInvoke() && c.Method.Name() == "Wellformed" && isCBORMode(c.Value.Type()) {
+			if c.IsInvoke() && c.Method.Name() == "Wellformed" && isCBORMode(c.Value.Type()) && len(c.Args) == 1 && P.terms.of(c.Args[0]).String() == "$0" {
 				return fn
 			}
 		}
